@@ -195,3 +195,21 @@ Qed.
 Theorem report_below_one (count index : nat) : index < count -> index * 1 < count * 1 /\ 0 <= index.
 Proof. lia. Qed.
 End Count.
+
+(* the chunks partition the pixel sequence: whatever the buffer size and the row pitch, what is encoded is the row-major
+   pixel sequence of the image, each pixel exactly once and in order *)
+Section Partition.
+Variables (X : Type) (n : nat).
+Hypothesis Hn : 1 <= n.
+Lemma chunks_fuel_concat : forall fuel (l : list X), length l <= fuel -> concat (chunks_fuel X fuel n l) = l.
+Proof.
+  induction fuel as [|fuel IH]; intros l Hl.
+  - destruct l; [reflexivity|simpl in Hl; lia].
+  - destruct l as [|x l]; [reflexivity|]. cbn [EncChunks.chunks_fuel concat].
+    rewrite IH by (rewrite skipn_length; cbn [length] in *; lia). apply firstn_skipn.
+Qed.
+Theorem chunks_partition (rows : list (list X)) : concat (fec_rows X n rows) = concat rows /\ concat (fec_contiguous X n rows) = concat rows.
+Proof.
+  rewrite (fec_rows_eq_contiguous X n Hn). split; unfold fec_contiguous, EncChunks.chunks; apply chunks_fuel_concat; lia.
+Qed.
+End Partition.
